@@ -15,6 +15,8 @@ pub trait DynMarket {
     fn assets(&self) -> usize;
     fn levels(&self) -> usize;
     fn book(&self, a: usize) -> &dyn DynBook;
+    /// the asset's own book, mutably (`Market::get_order_book_mut`): operations applied to it directly
+    fn book_mut(&mut self, a: usize) -> &mut dyn DynBook;
     fn get_time(&self) -> u64;
     fn set_time(&mut self, t: u64);
     fn enable_trading(&mut self);
@@ -52,6 +54,9 @@ impl<const A: usize, const L: usize> DynMarket for Market<A, L> {
     }
     fn book(&self, a: usize) -> &dyn DynBook {
         self.get_order_book(a)
+    }
+    fn book_mut(&mut self, a: usize) -> &mut dyn DynBook {
+        self.get_order_book_mut(a)
     }
     fn get_time(&self) -> u64 {
         Market::get_time(self)
@@ -205,6 +210,10 @@ pub struct MarketCase {
     /// volume 0 is passed through unclamped (C14: differential between real objects, no volume clause)
     #[serde(default)]
     pub zero_vols: bool,
+    /// an asset byte with the high bit set addresses the asset's own book through
+    /// `Market::get_order_book_mut` (order operations, trading toggle and counter reset of that asset only)
+    #[serde(default)]
+    pub direct_ops: bool,
 }
 
 #[derive(Clone, Copy, Debug, Default)]
@@ -221,6 +230,7 @@ pub struct MarketOracles {
 
 #[derive(Clone, Debug, Default)]
 pub struct MarketFeatures {
+    pub direct_ops: u64,
     pub ops_executed: u64,
     pub ops_skipped: u64,
     pub trades: u64,
@@ -317,7 +327,8 @@ fn run_inner(case: &MarketCase, orc: MarketOracles, prop: &str, feat: &mut Marke
     let mut twin: Option<Box<dyn DynMarket>> = None;
     let mut alone: Vec<Box<dyn DynBook>> = if orc.standalone { (0..n).map(|a| new_book(case.levels, case.t0, case.ticks[a], case.trading)).collect() } else { vec![] };
     let mut now = case.t0;
-    let mut trading = case.trading;
+    // per-asset flags (they differ only after a toggle applied to one asset's own book)
+    let mut flags: Vec<bool> = vec![case.trading; n];
     let mut crossed_off = false;
     let mut reenabled_after_cross = false;
     let mut budget = vec![[u32::MAX as u64 - 1; 2]; n];
@@ -326,9 +337,13 @@ fn run_inner(case: &MarketCase, orc: MarketOracles, prop: &str, feat: &mut Marke
 
     let mut pre = market_obs(market.as_ref());
     for (step, aop) in case.ops.iter().enumerate() {
-        let a = (aop.0 as usize) % n;
+        let direct = case.direct_ops && aop.0 & 0x80 != 0;
+        let a = ((if case.direct_ops { aop.0 & 0x7f } else { aop.0 }) as usize) % n;
         let op = &aop.1;
         let ops_left = total - step;
+        if direct {
+            feat.direct_ops += 1;
+        }
         let mut clamp = |bid: bool, vol: u32| -> u32 {
             let k = bid as usize;
             let avail = budget[a][k].saturating_sub(ops_left as u64 + 4).max(1);
@@ -338,6 +353,8 @@ fn run_inner(case: &MarketCase, orc: MarketOracles, prop: &str, feat: &mut Marke
         };
         let mut rejected_create = false;
         let mut is_toggle = false;
+        // the order this operation placed or re-entered (asset `a`), if any
+        let mut target: Option<usize> = None;
         // concrete ModifyRel
         let concrete;
         let op = if let Op::ModifyRel { r, price, dvol } = op {
@@ -374,9 +391,20 @@ fn run_inner(case: &MarketCase, orc: MarketOracles, prop: &str, feat: &mut Marke
                     }
                 }
                 let n_before = pre[a].orders.len();
-                let r = if placing { market.create_and_place_order(a, *bid, v, *trader, *price) } else { market.create_order(a, *bid, v, *trader, *price) };
+                let create = |m: &mut dyn DynMarket| -> Result<(usize, usize), String> {
+                    if direct {
+                        let b = m.book_mut(a);
+                        (if placing { b.create_and_place_order(*bid, v, *trader, *price) } else { b.create_order(*bid, v, *trader, *price) }).map(|id| (a, id))
+                    } else if placing {
+                        m.create_and_place_order(a, *bid, v, *trader, *price)
+                    } else {
+                        m.create_order(a, *bid, v, *trader, *price)
+                    }
+                };
+                let r = create(market.as_mut());
+                target = r.as_ref().ok().map(|x| x.1);
                 if let Some(t) = twin.as_mut() {
-                    let r2 = if placing { t.create_and_place_order(a, *bid, v, *trader, *price) } else { t.create_order(a, *bid, v, *trader, *price) };
+                    let r2 = create(t.as_mut());
                     if r != r2 {
                         return Err(fail("C07 reloaded market diverges", step, aop, format!("creation result {:?} vs original {:?}", r, r2)));
                     }
@@ -421,11 +449,18 @@ fn run_inner(case: &MarketCase, orc: MarketOracles, prop: &str, feat: &mut Marke
                         b.set_time(now)
                     }
                 }
-                let act = |m: &mut dyn DynMarket| match op {
-                    Op::Place(_) => m.place_order((a, id)),
-                    Op::EvNew(_) => m.process_event(a, &Ev::New(id)),
-                    Op::Cancel(_) => m.cancel_order((a, id)),
-                    _ => m.process_event(a, &Ev::Cancel(id)),
+                if matches!(op, Op::Place(_) | Op::EvNew(_)) {
+                    target = Some(id);
+                }
+                let act = |m: &mut dyn DynMarket| match (op, direct) {
+                    (Op::Place(_), false) => m.place_order((a, id)),
+                    (Op::EvNew(_), false) => m.process_event(a, &Ev::New(id)),
+                    (Op::Cancel(_), false) => m.cancel_order((a, id)),
+                    (_, false) => m.process_event(a, &Ev::Cancel(id)),
+                    (Op::Place(_), true) => m.book_mut(a).place_order(id),
+                    (Op::EvNew(_), true) => m.book_mut(a).process_event(&Ev::New(id)),
+                    (Op::Cancel(_), true) => m.book_mut(a).cancel_order(id),
+                    (_, true) => m.book_mut(a).process_event(&Ev::Cancel(id)),
                 };
                 act(market.as_mut());
                 if let Some(t) = twin.as_mut() {
@@ -466,7 +501,15 @@ fn run_inner(case: &MarketCase, orc: MarketOracles, prop: &str, feat: &mut Marke
                     }
                 }
                 let ev = matches!(op, Op::EvModify { .. });
-                let act = |m: &mut dyn DynMarket| if ev { m.process_event(a, &Ev::Modify(id, *price, vol)) } else { m.modify_order((a, id), *price, vol) };
+                if o.status == St::Active && (price.is_some() || vol.map_or(false, |v| v >= o.vol)) {
+                    target = Some(id);
+                }
+                let act = |m: &mut dyn DynMarket| match (ev, direct) {
+                    (true, false) => m.process_event(a, &Ev::Modify(id, *price, vol)),
+                    (false, false) => m.modify_order((a, id), *price, vol),
+                    (true, true) => m.book_mut(a).process_event(&Ev::Modify(id, *price, vol)),
+                    (false, true) => m.book_mut(a).modify_order(id, *price, vol),
+                };
                 act(market.as_mut());
                 if let Some(t) = twin.as_mut() {
                     act(t.as_mut());
@@ -492,33 +535,56 @@ fn run_inner(case: &MarketCase, orc: MarketOracles, prop: &str, feat: &mut Marke
             }
             Op::Trading(on) => {
                 is_toggle = true;
-                let f = |m: &mut dyn DynMarket| if *on { m.enable_trading() } else { m.disable_trading() };
+                let f = |m: &mut dyn DynMarket| match (direct, *on) {
+                    (false, true) => m.enable_trading(),
+                    (false, false) => m.disable_trading(),
+                    (true, true) => m.book_mut(a).enable_trading(),
+                    (true, false) => m.book_mut(a).disable_trading(),
+                };
                 f(market.as_mut());
                 if let Some(t) = twin.as_mut() {
                     f(t.as_mut());
                 }
-                for b in alone.iter_mut() {
+                for (k, b) in alone.iter_mut().enumerate() {
+                    if direct && k != a {
+                        continue;
+                    }
                     if *on {
                         b.enable_trading()
                     } else {
                         b.disable_trading()
                     }
                 }
-                if trading != *on {
-                    feat.toggles += 1;
+                for k in 0..n {
+                    if direct && k != a {
+                        continue;
+                    }
+                    if flags[k] != *on {
+                        feat.toggles += 1;
+                        if *on && crossed_off {
+                            reenabled_after_cross = true;
+                        }
+                    }
+                    flags[k] = *on;
                 }
-                if *on && !trading && crossed_off {
-                    reenabled_after_cross = true;
-                }
-                trading = *on;
             }
             Op::ResetTradeVol => {
-                market.reset_trade_vols();
-                if let Some(t) = twin.as_mut() {
-                    t.reset_trade_vols()
-                }
-                for b in alone.iter_mut() {
-                    b.reset_trade_vol()
+                if direct {
+                    market.book_mut(a).reset_trade_vol();
+                    if let Some(t) = twin.as_mut() {
+                        t.book_mut(a).reset_trade_vol()
+                    }
+                    if orc.standalone {
+                        alone[a].reset_trade_vol()
+                    }
+                } else {
+                    market.reset_trade_vols();
+                    if let Some(t) = twin.as_mut() {
+                        t.reset_trade_vols()
+                    }
+                    for b in alone.iter_mut() {
+                        b.reset_trade_vol()
+                    }
                 }
             }
             Op::Reload(how) => {
@@ -593,8 +659,8 @@ fn run_inner(case: &MarketCase, orc: MarketOracles, prop: &str, feat: &mut Marke
                     }
                 }
             }
-            if !trading {
-                for a2 in 0..n {
+            for a2 in 0..n {
+                if !flags[a2] {
                     if post[a2].trades.len() != pre[a2].trades.len() {
                         return Err(fail("C13 trade recorded while trading disabled", step, aop, format!("asset {}: {:?}", a2, post[a2].trades.last())));
                     }
@@ -615,6 +681,32 @@ fn run_inner(case: &MarketCase, orc: MarketOracles, prop: &str, feat: &mut Marke
                     if v.bid_vol > 0 && v.ask_vol > 0 && v.bid_ask.0 >= v.bid_ask.1 {
                         crossed_off = true;
                         feat.crossed_while_off = true;
+                    }
+                } else {
+                    // enabled: nothing is rejected, and an order that has just arrived or been re-entered has
+                    // matched as far as its limit admits - it cannot be resting across the opposite touch
+                    for (x, y) in pre[a2].orders.iter().zip(post[a2].orders.iter()) {
+                        if x.status != St::Rejected && y.status == St::Rejected {
+                            return Err(fail("C13 order rejected while trading enabled", step, aop, format!("asset {}: {:?}", a2, y)));
+                        }
+                    }
+                    if let Some(y) = post[a2].orders.get(pre[a2].orders.len()) {
+                        if y.status == St::Rejected {
+                            return Err(fail("C13 order rejected while trading enabled", step, aop, format!("asset {}: {:?}", a2, y)));
+                        }
+                    }
+                    if a2 == a && !is_toggle {
+                        if let Some(y) = target.and_then(|id| post[a].orders.get(id)) {
+                            let was_active = pre[a].orders.get(y.id).map_or(false, |x| x.status == St::Active);
+                            let changed = pre[a].orders.get(y.id).map_or(true, |x| x != y);
+                            if y.status == St::Active && (changed || !was_active) {
+                                let opp = post[a].orders.iter().filter(|o| o.status == St::Active && o.bid != y.bid && o.vol > 0).map(|o| o.price);
+                                let crosses = if y.bid { opp.min().map_or(false, |p| p <= y.price) } else { opp.max().map_or(false, |p| p >= y.price) };
+                                if crosses && y.vol > 0 {
+                                    return Err(fail("C13 arriving order rests across the opposite touch while trading is enabled", step, aop, format!("asset {}: {:?}", a, y)));
+                                }
+                            }
+                        }
                     }
                 }
             }
